@@ -76,7 +76,7 @@ CHECKS = {
     },
     "C08": {
         "units": ["dateroll"],
-        "kani": {"quick": ["std_i32_abs_signum", "std_i32_rem_euclid_12", "std_i32_try_from_u32", "chrono_view_is_days_from_civil", "chrono_from_ymd_validity"], "thorough": ["std_i32_abs_signum", "std_i32_rem_euclid_12", "std_i32_try_from_u32", "chrono_view_is_days_from_civil", "chrono_from_ymd_validity", "chrono_add_days", "chrono_sub_days"]},
+        "kani": {"quick": ["rateslib_get_imm_is_third_wednesday", "rateslib_is_imm_exactly_third_wednesday", "rateslib_get_eom_is_last_day", "rateslib_is_eom_exactly_last_day", "rateslib_is_leap_year_gregorian", "std_i32_abs_signum", "std_i32_rem_euclid_12", "std_i32_try_from_u32", "chrono_view_is_days_from_civil", "chrono_from_ymd_validity"], "thorough": ["rateslib_get_imm_is_third_wednesday", "rateslib_is_imm_exactly_third_wednesday", "rateslib_get_eom_is_last_day", "rateslib_is_eom_exactly_last_day", "rateslib_is_leap_year_gregorian", "std_i32_abs_signum", "std_i32_rem_euclid_12", "std_i32_try_from_u32", "chrono_view_is_days_from_civil", "chrono_from_ymd_validity", "chrono_add_days", "chrono_sub_days"]},
         "level": "proof",
         "assumptions": CHRONO_ASSUMPTIONS + [
             "specs of i32::abs / signum / rem_euclid / i32::try_from(u32) / i8::unsigned_abs (shim/intspecs.rs): each checked by a Kani harness against the real std over the full domain (rem_euclid for the divisor 12, the one the code uses)",
